@@ -373,7 +373,7 @@ Proof.
   exists None, witness_ops, ["b"]. split; [reflexivity|]. vm_compute. discriminate.
 Qed.
 
-(* and the trigger is exactly what the witness hits, nothing shorter does *)
+(* the witness is inside the trigger (a 3-operation witness: proof/FsCacheRef.v, witness3) *)
 Lemma witness_trigger : trigger None witness_ops = true.
 Proof. reflexivity. Qed.
 
